@@ -86,12 +86,12 @@ def agg_scenarios(rng):
     return None
 
 
-def backtest_windows(fast):
+def backtest_windows(fast, route_tf='5m', data_tf='15m', n=200):
     """every higher-timeframe candle seen by a strategy equals agg of its 1m window (normal / fast simulator)"""
     from jesse import research
     from jesse.strategies import Strategy
     rng = random.Random(5)
-    n = 200
+    cnt = K.MINUTES[data_tf]
     closes = [100.0]
     for _ in range(n - 1):
         closes.append(closes[-1] * (1 + rng.uniform(-0.004, 0.004)))
@@ -111,22 +111,26 @@ def backtest_windows(fast):
         def go_short(self): pass
 
         def before(self):
-            c15 = self.get_candles('Sandbox', 'BTC-USDT', '15m')
+            c15 = self.get_candles('Sandbox', 'BTC-USDT', data_tf)
             c1 = self.get_candles('Sandbox', 'BTC-USDT', '1m')
             for j in range(len(c15)):
-                w = c1[j * 15:(j + 1) * 15]
+                w = c1[j * cnt:(j + 1) * cnt]
                 if len(w) and not np.allclose(c15[j], np.array(K.agg(np.array(w)))):
                     bad.append((self.index, j, c15[j].tolist(), np.array(K.agg(np.array(w))).tolist()))
                     return
-            if len(c15) != -(-len(c1) // 15):
+            if len(c15) != -(-len(c1) // cnt):
                 bad.append((self.index, 'count', len(c15), len(c1)))
     cfg = {'starting_balance': 10000, 'fee': 0, 'type': 'futures', 'futures_leverage': 2, 'futures_leverage_mode': 'cross',
            'exchange': 'Sandbox', 'warm_up_candles': 0}
-    research.backtest(cfg, [{'exchange': 'Sandbox', 'strategy': S, 'symbol': 'BTC-USDT', 'timeframe': '5m'}],
-                      [{'exchange': 'Sandbox', 'symbol': 'BTC-USDT', 'timeframe': '15m'}],
+    research.backtest(cfg, [{'exchange': 'Sandbox', 'strategy': S, 'symbol': 'BTC-USDT', 'timeframe': route_tf}],
+                      [{'exchange': 'Sandbox', 'symbol': 'BTC-USDT', 'timeframe': data_tf}],
                       {'Sandbox-BTC-USDT': {'exchange': 'Sandbox', 'symbol': 'BTC-USDT', 'candles': arr}}, fast_mode=fast)
     if bad:
-        return f'{"fast" if fast else "normal"} simulator: at strategy step {bad[0][0]} 15m candle {bad[0][1]} = {bad[0][2]} but aggregation = {bad[0][3]}'
+        if bad[0][1] == 'count':
+            return (f'{"fast" if fast else "normal"} simulator, routes {route_tf} + {data_tf}: at strategy step {bad[0][0]} the {data_tf} series has '
+                    f'{bad[0][2]} candles although {-(-bad[0][3] // cnt)} windows have started ({bad[0][3]} minutes)')
+        return (f'{"fast" if fast else "normal"} simulator, routes {route_tf} + {data_tf}: at strategy step {bad[0][0]} {data_tf} candle {bad[0][1]} = '
+                f'{bad[0][2]} but aggregation = {bad[0][3]}')
     return None
 
 
@@ -141,6 +145,18 @@ def replay(pl):
             d = get_candles_scenarios(tf, rng)
             if d:
                 break
+    elif ob.startswith('min-step'):
+        failing = (pl.get('info') or {}).get('failing') or []
+        combos = [tuple(f[0]) for f in failing if isinstance(f, list) and f and isinstance(f[0], list) and len(f[0]) == 2] or [('30m', '45m')]
+        try:
+            for a, b in combos[:3]:
+                if K.MINUTES[a] > 720 or K.MINUTES[b] > 720:
+                    continue
+                d = backtest_windows(True, a, b, n=4 * max(K.MINUTES[a], K.MINUTES[b]))
+                if d:
+                    break
+        except Exception as ex:
+            d = f'backtest raised {type(ex).__name__}: {ex}'
     else:
         try:
             d = backtest_windows(ob.startswith('fast')) or backtest_windows(not ob.startswith('fast'))
